@@ -1501,7 +1501,7 @@ func c07Strace(c *Case) {
 
 func init() {
 	props["C07"] = func(x *Ctx) {
-		x.rule = "hostile byte strings (.., ., /, empty, absolute paths into the sandbox, NUL, 128..255-byte names, Mac-Roman high bytes incl. 0xDA fraction slash and 0xC9 ellipsis, '../Files.incomplete', '../.rsrc_Files', '..'+root name, compositions of ../ and canary names, existing names) in every path-bearing field (file path items with correct and lying length prefixes / counts, file name, new name, new path, folder-upload item segments, account logins) of all 11 file handlers, the folder-upload / file-upload / download transfer entry point and account create / rename / delete; the sandbox holds the root plus canary siblings (Files.incomplete, .rsrc_Files, .info_Files, outside.txt, Sibling/, Files2/, x.yaml, victim.yaml, one level up: outside.txt, x.yaml, Files/); after EVERY request the recursive snapshot outside the root (accounts dir) must be unchanged and no canary content may appear in replies / transfer bytes. non-trivial = a request that reached the handler with a path-bearing field set (counted per distinct field bytes) / a transfer that was registered and run"
+		x.rule = "hostile byte strings (.., ., /, empty, absolute paths into the sandbox, NUL, 128..255-byte names, Mac-Roman high bytes incl. 0xDA fraction slash and 0xC9 ellipsis, '../Files.incomplete', '../.rsrc_Files', '..'+root name, compositions of ../ and canary names, existing names) in every path-bearing field (file path items with correct and lying length prefixes / counts, file name, new name, new path, folder-upload item segments, account logins) of all 11 file handlers, the folder-upload / file-upload / download transfer entry point and account create / rename / delete; the sandbox holds the root plus canary siblings (Files.incomplete, .rsrc_Files, .info_Files, outside.txt, Sibling/, Files2/, x.yaml, victim.yaml, one level up: outside.txt, x.yaml, Files/); after EVERY request the recursive snapshot outside the root (accounts dir) must be unchanged and no canary content may appear in replies / transfer bytes. non-trivial = a request that reached the handler with a path-bearing field set (counted per distinct field bytes) / a transfer that was registered and run. family accounts-restart: histories of create / rename / delete with hostile logins that include RESTARTS — the accounts directory (optionally in the state a rename interrupted by a crash leaves: file moved, contents not rewritten) is reloaded by the real NewYAMLAccountManager, requests continue on the reloaded manager; canaries at the un-anchored locations in half of the cases; the snapshot outside Users/ is compared after every request and every restart, the names in Users/ after a restart with the model's loader"
 		x.assume = []string{
 			"the configured file root and accounts directory are absolute ASCII paths that exist (four spellings of the root are exercised: clean, trailing slash, per-account root with /./ or //)",
 			"no symlink inside the root points outside it when the server starts (the model proves aliases created by the server point inside)",
@@ -1514,6 +1514,7 @@ func init() {
 		x.Add(&Family{Name: "handlers-canary", Quick: 256, Thor: 4000, Run: c07Canary})
 		x.Add(&Family{Name: "alias-sequences", Quick: 64, Thor: 1200, Run: c07AliasSeq})
 		x.Add(&Family{Name: "accounts", Quick: 48, Thor: 800, Run: c07Accounts})
+		x.Add(&Family{Name: "accounts-restart", Quick: 96, Thor: 1500, Run: c07AccountsRestart}) // wave d (c07_restart.go)
 		x.Add(&Family{Name: "transfers", Quick: 48, Thor: 480, Run: c07Transfers})
 		if x.Tier == "thorough" {
 			x.Add(&Family{Name: "strace", Quick: 0, Thor: 24, Run: c07Strace})
